@@ -156,13 +156,23 @@ def explore(ctx):
         flavor = rng.choice(["ttf", "otf"])
         lib = rng.choice(["ufoLib2", "defcon"])
         desc = {"glyphs": simple_glyphs(), "info": dict(info), "no_info_defaults": True}
-        case = {"info": jsonable(info), "flavor": flavor, "lib": lib}
+        # every subset of the three vhea metrics (they have no fallback: the vertical tables are built only when all
+        # three are present; a partial set is valid font info and must simply compile without them)
+        VH = ("openTypeVheaVertTypoAscender", "openTypeVheaVertTypoDescender", "openTypeVheaVertTypoLineGap")
+        vh = {a: [500, -500, 0, 120, -1, 1000][(i + k) % 6] for k, a in enumerate(VH) if (i % 8) >> k & 1}
+        desc["info"].update(vh)
+        case = {"info": jsonable(info), "vhea_info": vh, "flavor": flavor, "lib": lib}
         try:
             tt = (ufo2ft.compileTTF if flavor == "ttf" else ufo2ft.compileOTF)(build_font(desc, lib))
             buf = io.BytesIO(); tt.save(buf); buf.seek(0); tt = TTFont(buf)
         except Exception as e:
             ctx.spec_failure(case, "compile/save of spec-valid info raised %s: %s\n%s" % (type(e).__name__, e, traceback.format_exc()[-1000:]))
             continue
+        ctx.klass("vhea attributes present: %d of 3" % len(vh))
+        if ("vhea" in tt) != (len(vh) == 3):
+            ctx.spec_failure(case, "vertical tables %s although %d of the 3 vhea metrics are set" % ("built" if "vhea" in tt else "missing", len(vh)))
+        elif "vhea" in tt and (tt["vhea"].ascent, tt["vhea"].descent, tt["vhea"].lineGap) != tuple(vh[a] for a in VH):
+            ctx.spec_failure(case, "explicit vhea metrics %r came out as %r" % (vh, (tt["vhea"].ascent, tt["vhea"].descent, tt["vhea"].lineGap)))
         o, h = tt["OS/2"], tt["hhea"]
         obs = (tt["head"].unitsPerEm, o.sxHeight, o.sCapHeight, o.sTypoAscender, o.sTypoDescender, o.sTypoLineGap,
                o.usWinAscent, o.usWinDescent, h.ascent, h.descent, h.lineGap)
